@@ -12,8 +12,8 @@ aligned to `P` and pairwise disjoint (`OracleOk`).  `rs` is the state reached by
 
 Outside any Lean model (partial): the raw-pointer aliasing / provenance side of the code.
 -/
-import Desverif.Proofs.AllocRun
-import Desverif.Proofs.CQMemQueue
+import Desverif.Proofs.AllocAccept
+import Desverif.Proofs.CQMemShape
 namespace C15
 open Alloc
 
@@ -158,25 +158,8 @@ theorem alloc_terminates {orc P} (ho : OracleOk orc P) (hp : PageOk P) {ops rs o
     (hal : (sizeAlign lsize (2 ^ k)).2 ≤ P)
     (hsz : (sizeAlign lsize (2 ^ k)).1 = P ∨ (sizeAlign lsize (2 ^ k)).1 + 16 ≤ P) :
     ∃ a, (step orc rs (.alloc lsize k)).2 = .allocated a := by
-  have hi := (invariant_reachable ho hp hr).inv
-  have hn := sizeAlign_ok lsize k
-  have hdvd : (sizeAlign lsize (2 ^ k)).2 ∣ P := by
-    obtain ⟨p, _, rfl⟩ := hp
-    simp only [sizeAlign] at hal ⊢
-    rw [max_pow_eq] at hal ⊢
-    exact pow_dvd_of_le hal
-  obtain ⟨t, ht⟩ := findRegion_terminates ho hp hdvd hn.alignPos hsz hi
-  rcases step_alloc_cases orc rs lsize k with ⟨e, h1, _⟩ | ⟨s', h1, _⟩ | ⟨s', a, _, h2⟩
-  · -- no error: find_region terminates, and it is the only possible failure
-    have hd := allocate_err ho hp hi h1
-    subst hd
-    have := allocate_diverge_inv h1
-    rw [ht] at this
-    simp at this
-  · have := (allocate_none h1).2
-    rw [hi.ps] at this
-    omega
-  · exact ⟨a, by rw [h2]⟩
+  obtain ⟨s', a, hst⟩ := step_alloc_terminates ho hp (invariant_reachable ho hp hr) ⟨hal, hsz⟩
+  exact ⟨a, by rw [hst]⟩
 
 /-- **Termination side-condition (necessary).** A request of normalised size strictly between
     `page − 16` and `page` that no free region serves makes `find_region` add pages forever (each
@@ -189,6 +172,86 @@ theorem alloc_diverges {orc P} (ho : OracleOk orc P) (hp : PageOk P) {ops rs out
     (hnone : scan rs.st.free size align = none) :
     findRegion orc fuel rs.st size align = .error .diverge :=
   findRegion_diverges ho hp hal hpos h1 h2 fuel (invariant_reachable ho hp hr).inv hnone
+
+/-- the size invariant holds in every reachable state -/
+theorem sizes_reachable {orc P} (ho : OracleOk orc P) (hp : PageOk P) {ops rs outs}
+    (hr : run orc P ops = some (rs, outs)) : RSInv orc P rs := by
+  obtain ⟨rs0, h0, hi⟩ := start_sinv ho hp
+  simp only [run, h0, Option.map_some, Option.some.injEq] at hr
+  have := runFrom_sinv ho hp ops hi
+  rw [hr] at this
+  exact this
+
+/-- **Shape of the free list.** In every reachable state a free region is a whole page starting at
+    the base of an owned page, or at most `page − 16` bytes long (and so is every live block). -/
+theorem free_region_sizes {orc P} (ho : OracleOk orc P) (hp : PageOk P) {ops rs outs}
+    (hr : run orc P ops = some (rs, outs)) :
+    (∀ r ∈ rs.st.free, (r.size = P ∧ r.addr ∈ rs.st.pages) ∨ r.size + 16 ≤ P) ∧
+    (∀ e ∈ rs.live, e.blk.size = P ∨ e.blk.size + 16 ≤ P) := by
+  have hs := sizes_reachable ho hp hr
+  refine ⟨?_, hs.s.live⟩
+  intro r hrm
+  rcases hs.s.free r hrm with h | h
+  · left
+    refine ⟨h, ?_⟩
+    obtain ⟨i, hi, h1, h2⟩ := (hs.r.inv.free r hrm).2.2
+    simp only [Region.stop] at h2
+    have : r.addr = orc i := by omega
+    rw [this, hs.r.inv.pages]
+    exact List.mem_map.mpr ⟨i, List.mem_range.mpr hi, rfl⟩
+  · exact Or.inr h
+
+/-- **Non-termination in every reachable state.** A request whose normalised size lies strictly
+    between `page − 16` and `page` is served by NO free region of ANY reachable state, so
+    `find_region` adds pages forever (fails for every fuel) and the step reports `diverged` — no
+    matter what was allocated or freed before. -/
+theorem alloc_diverges_reachable {orc P} (ho : OracleOk orc P) (hp : PageOk P) {ops rs outs}
+    (hr : run orc P ops = some (rs, outs)) (lsize k : Nat)
+    (h1 : P < (sizeAlign lsize (2 ^ k)).1 + 16) (h2 : (sizeAlign lsize (2 ^ k)).1 < P) :
+    scan rs.st.free (sizeAlign lsize (2 ^ k)).1 (sizeAlign lsize (2 ^ k)).2 = none ∧
+    (∀ fuel, findRegion orc fuel rs.st (sizeAlign lsize (2 ^ k)).1 (sizeAlign lsize (2 ^ k)).2 =
+      .error .diverge) ∧
+    step orc rs (.alloc lsize k) = (rs, .diverged) := by
+  have hs := sizes_reachable ho hp hr
+  have hn := sizeAlign_ok lsize k
+  have hdvd := window_align_dvd hp h1 h2
+  have hnone := no_region_fits ho hs.r.inv hs.s hdvd hn.alignPos h1 h2
+  have hdiv := fun fuel => findRegion_diverges ho hp hdvd hn.alignPos h1 h2 fuel hs.r.inv hnone
+  refine ⟨hnone, hdiv, ?_⟩
+  have hbig : ¬ (sizeAlign lsize (2 ^ k)).1 > rs.st.pageSize := by rw [hs.r.inv.ps]; omega
+  have := allocate_of_findRegion_err hbig (hdiv FUEL)
+  simp [step, this, errOut]
+
+/-- **The side-condition, exactly.** For a request that is not larger than a page and whose
+    alignment does not exceed the page size, in every reachable state: the allocator diverges iff
+    the normalised size lies strictly between `page − 16` and `page`; otherwise it returns a block. -/
+theorem alloc_diverges_iff {orc P} (ho : OracleOk orc P) (hp : PageOk P) {ops rs outs}
+    (hr : run orc P ops = some (rs, outs)) (lsize k : Nat)
+    (hal : (sizeAlign lsize (2 ^ k)).2 ≤ P) (hle : (sizeAlign lsize (2 ^ k)).1 ≤ P) :
+    (step orc rs (.alloc lsize k)).2 = .diverged ↔
+      (P < (sizeAlign lsize (2 ^ k)).1 + 16 ∧ (sizeAlign lsize (2 ^ k)).1 < P) := by
+  constructor
+  · intro hd
+    apply Classical.byContradiction
+    intro hno
+    have hsz : (sizeAlign lsize (2 ^ k)).1 = P ∨ (sizeAlign lsize (2 ^ k)).1 + 16 ≤ P := by omega
+    obtain ⟨s', a, hst⟩ := step_alloc_terminates ho hp (invariant_reachable ho hp hr) ⟨hal, hsz⟩
+    rw [hst] at hd
+    simp at hd
+  · rintro ⟨h1, h2⟩
+    rw [(alloc_diverges_reachable ho hp hr lsize k h1 h2).2.2]
+
+/-- **Every event trace the model produces is accepted by the shadow-map checker**
+    `AllocSafe.accept` (in-page, aligned, disjoint from live blocks, alloc/free pairing, `Err` only
+    for oversize requests, page order), for every script and page size, under the canonical oracle
+    the driver uses; the checker ends with the model's page count and exactly its live blocks. -/
+theorem model_trace_accepted {P : Nat} (hp : PageOk P) (ops : List Op) :
+    ∃ t rs outs sh, trace (AllocSafe.orcOf P) P ops = some t ∧
+      run (AllocSafe.orcOf P) P ops = some (rs, outs) ∧
+      AllocSafe.acceptAll { pageSize := P } (t.map (AllocSafe.ofMEv P)) = .ok sh ∧
+      sh.pages = rs.st.pages.length ∧ sh.live = rs.live.map (AllocSafe.blkOf P) := by
+  obtain ⟨t, rs, outs, sh, h1, h2, h3, h4⟩ := AllocSafe.trace_accepted hp ops
+  exact ⟨t, rs, outs, sh, h1, h2, h3, h4.pages, h4.live⟩
 
 /-! ### Payloads (on the calendar-queue model of C01) -/
 
@@ -233,6 +296,209 @@ theorem cqmem_queue_is_cq (orc : Nat → Nat) (st : CQMem.State) (op : CQRun.Op)
     (CQMem.step orc st op).st.q = (CQRun.mstep st.q op).1 ∧ o = (CQRun.mstep st.q op).2 :=
   CQMem.step_queue orc st op o h
 
+/-! ### The queue together with the memory of its nodes (`CQMem`)
+
+`Reach orc P n t nsize nlog st ss`: `st` is reachable from `CQueue::new(n, t)` (page size `P`, node
+layout `(nsize, 2^nlog)`) by add / cancel / fetch / peek, `ss` is the abstract event set run in
+lock-step.  Hypotheses: `n, t ≥ 1`, the node layout is in the property's range (`Fits`). -/
+
+open CQMem in
+/-- `CQueue::new` succeeds for every in-range node layout -/
+theorem cqmem_create_succeeds {orc P} (ho : OracleOk orc P) (hp : PageOk P) {n t nsize nlog : Nat}
+    (hn : 1 ≤ n) (ht : 1 ≤ t) (hf : Fits P nsize nlog) :
+    ∃ st evs, create orc n t P nsize nlog = (some st, .created, evs) ∧
+      Reach orc P n t nsize nlog st (FES.init, []) := by
+  obtain ⟨st, evs, hc, _⟩ := create_ninv (orc := orc) ho hp hn ht hf
+  exact ⟨st, evs, hc, .create hc⟩
+
+open CQMem in
+/-- every operation on a reachable state answers — never `diverged`, never `internal` (no failed
+    `unwrap`, no release of a non-live node) — and answers exactly as the abstract event set -/
+theorem cqmem_step_answers {orc P n t nsize nlog} (ho : OracleOk orc P) (hp : PageOk P)
+    (hn : 1 ≤ n) (ht : 1 ≤ t) (hf : Fits P nsize nlog) {st ss}
+    (h : Reach orc P n t nsize nlog st ss) (op : CQRun.Op) :
+    ∃ o, (CQMem.step orc st op).out = .cq o ∧ o = (CQRun.sstep ss op).2 := by
+  obtain ⟨o, h1, h2, _⟩ := step_ninv ho hp (reach_ninv ho hp hn ht hf h) op
+  exact ⟨o, h1, h2⟩
+
+open CQMem in
+/-- **Nodes match events.** In every reachable state the live allocator blocks are exactly: one
+    node per bucket-resident event (the injective map `nodes`: event id ↦ block key) plus the two
+    sentinels of each bucket; current-instant (zero-bucket) events own no node; every block has the
+    node layout; the allocator invariant (disjointness, alignment, in-page, accounting) holds for
+    these blocks.  Since this holds before and after every step, `add` allocates exactly one node
+    for a bucket-resident event and `fetch`/`cancel` release exactly the node of the event they
+    remove. -/
+theorem cqmem_nodes_match_events {orc P n t nsize nlog} (ho : OracleOk orc P) (hp : PageOk P)
+    (hn : 1 ≤ n) (ht : 1 ≤ t) (hf : Fits P nsize nlog) {st ss}
+    (h : Reach orc P n t nsize nlog st ss) :
+    (st.a.live.map (·.key)).Perm (st.nodes.map (·.2) ++ sentKeys st.sent) ∧
+    (st.a.live.map (·.key)).Nodup ∧
+    (st.nodes.map (·.1)).Perm (st.q.1.buckets.flatten.map (·.id)) ∧
+    (∀ e ∈ st.q.1.zero, st.nodes.lookup e.id = none) ∧
+    st.sent.length = st.q.1.buckets.length ∧
+    st.a.live.length = st.q.1.buckets.flatten.length + 2 * st.q.1.buckets.length ∧
+    (∀ e ∈ st.a.live, e.lsize = nsize ∧ e.lalign = 2 ^ nlog) ∧
+    RInv orc P st.a ∧
+    st.a.st.allocated = st.a.live.length * (sizeAlign nsize (2 ^ nlog)).1 := by
+  have hi := reach_ninv ho hp hn ht hf h
+  have hN := hi.nodes
+  have hR := hi.rr.r
+  have hlay : st.nsize = nsize ∧ st.nlog = nlog := by
+    clear hi hN hR
+    induction h with
+    | create hc =>
+      obtain ⟨st', evs', hc', _⟩ := create_ninv (orc := orc) ho hp hn ht hf
+      simp only [create] at hc
+      split at hc
+      · simp at hc
+      · split at hc
+        · simp at hc
+        · simp only [Prod.mk.injEq, Option.some.injEq] at hc
+          rw [← hc.1]; exact ⟨rfl, rfl⟩
+    | step op _ ih =>
+      have key : ∀ (st : CQMem.State), (CQMem.step orc st op).st.nsize = st.nsize ∧
+          (CQMem.step orc st op).st.nlog = st.nlog := by
+        intro st
+        cases op with
+        | peek => exact ⟨rfl, rfl⟩
+        | add time val =>
+          simp only [CQMem.step, CQMem.add]
+          split
+          · exact ⟨rfl, rfl⟩
+          · split
+            · exact ⟨rfl, rfl⟩
+            · split <;> exact ⟨rfl, rfl⟩
+        | cancel k =>
+          simp only [CQMem.step, CQMem.cancel]
+          split
+          · exact ⟨rfl, rfl⟩
+          · split
+            · exact ⟨rfl, rfl⟩
+            · split
+              · simp only [freeNodeOf]
+                split <;> exact ⟨rfl, rfl⟩
+              · exact ⟨rfl, rfl⟩
+        | fetch =>
+          simp only [CQMem.step, CQMem.fetch]
+          split
+          · exact ⟨rfl, rfl⟩
+          · exact ⟨rfl, rfl⟩
+          · split
+            · simp only [freeNodeOf]
+              split <;> exact ⟨rfl, rfl⟩
+            · exact ⟨rfl, rfl⟩
+      exact ⟨(key _).1.trans ih.1, (key _).2.trans ih.2⟩
+  have hkeys : (st.a.live.map (·.key)).Perm (st.nodes.map (·.2) ++ sentKeys st.sent) :=
+    (List.perm_ext_iff_of_nodup hN.k.nodup hN.keysNodup).mpr
+      (fun x => (hN.keys x).trans List.mem_append.symm)
+  have hidsFlat : (st.q.1.buckets.flatten.map (·.id)).Nodup := by
+    have := hR.inv.nodup
+    unfold CQ.pending at this
+    rw [List.map_append] at this
+    exact (List.nodup_append.mp this).2.1
+  have hids : (st.nodes.map (·.1)).Perm (st.q.1.buckets.flatten.map (·.id)) :=
+    (List.perm_ext_iff_of_nodup hN.idsNodup hidsFlat).mpr hN.ids
+  have hblen : st.sent.length = st.q.1.buckets.length := by rw [hN.sentLen, hR.inv.hlen]
+  have hlen : st.a.live.length = st.q.1.buckets.flatten.length + 2 * st.q.1.buckets.length := by
+    have h1 := hkeys.length_eq
+    have h2 := hids.length_eq
+    simp only [List.length_map, List.length_append, sentKeys_length] at h1 h2
+    omega
+  have hlayout : ∀ e ∈ st.a.live, e.lsize = nsize ∧ e.lalign = 2 ^ nlog := by
+    intro e he
+    have := hN.layout e he
+    rw [hlay.1, hlay.2] at this; exact this
+  refine ⟨hkeys, hN.k.nodup, hids, ?_, hblen, hlen, hlayout, hN.k.r, ?_⟩
+  · intro e he
+    cases hl : st.nodes.lookup e.id with
+    | none => rfl
+    | some key =>
+      exfalso
+      have hm : e.id ∈ st.nodes.map (·.1) := List.mem_map.mpr ⟨(e.id, key), mem_of_lookup hl, rfl⟩
+      have hb : e.id ∈ st.q.1.buckets.flatten.map (·.id) := (hN.ids e.id).mp hm
+      have := hR.inv.nodup
+      unfold CQ.pending at this
+      rw [List.map_append] at this
+      exact (List.nodup_append.mp this).2.2 e.id (List.mem_map_of_mem he) e.id hb rfl
+  · rw [hN.k.r.inv.acct]
+    have : ∀ (l : List Live), (∀ e ∈ l, e.lsize = nsize ∧ e.lalign = 2 ^ nlog) →
+        (l.map (fun e => e.blk.size)).sum = l.length * (sizeAlign nsize (2 ^ nlog)).1 := by
+      intro l
+      induction l with
+      | nil => intro _; simp
+      | cons x xs ih =>
+        intro hx
+        have h1 := hx x (by simp)
+        simp only [List.map_cons, List.sum_cons, List.length_cons]
+        rw [ih (fun e he => hx e (by simp [he]))]
+        simp only [Live.blk, h1.1, h1.2]
+        rw [Nat.add_mul, Nat.one_mul, Nat.add_comm]
+    exact this _ hlayout
+
+open CQMem in
+/-- **Drop releases everything, exactly once.** Dropping a reachable queue walks a key list that is
+    a permutation of the keys of all live blocks (each node and each sentinel exactly once), every
+    release succeeds, afterwards no block is live and `allocated_mem = 0`; the payloads destroyed
+    are exactly the pending ones of the abstract event set (each once). -/
+theorem cqmem_drop_releases_all {orc P n t nsize nlog} (ho : OracleOk orc P) (hp : PageOk P)
+    (hn : 1 ≤ n) (ht : 1 ≤ t) (hf : Fits P nsize nlog) {st ss}
+    (h : Reach orc P n t nsize nlog st ss) :
+    (dropKeys st).Perm (st.a.live.map (·.key)) ∧
+    (CQMem.drop orc st).out = .dropped ∧ (CQMem.drop orc st).st.a.live = [] ∧
+    (CQMem.drop orc st).st.a.st.allocated = 0 ∧
+    (CQMem.drop orc st).drops.Perm ((CQRun.spending ss.1).map (·.val)) := by
+  obtain ⟨h1, h2, h3, h4, _, h6⟩ := drop_ninv ho hp (reach_ninv ho hp hn ht hf h)
+  exact ⟨h1, h2, h3, h4, h6⟩
+
+open CQMem in
+/-- **`fetch`/`cancel` free exactly the node of the removed event.** If event `i` owns the block
+    with key `key` in a reachable state, then after any operation that block is still live iff
+    event `i` is still bucket-resident: the node of a fetched/cancelled event is released by that
+    very operation, and no other node ever is. -/
+theorem cqmem_node_freed_iff_event_removed {orc P n t nsize nlog} (ho : OracleOk orc P)
+    (hp : PageOk P) (hn : 1 ≤ n) (ht : 1 ≤ t) (hf : Fits P nsize nlog) {st ss}
+    (h : Reach orc P n t nsize nlog st ss) (op : CQRun.Op) {i key : Nat}
+    (hk : st.nodes.lookup i = some key) :
+    key ∈ (CQMem.step orc st op).st.a.live.map (·.key) ↔
+      i ∈ (CQMem.step orc st op).st.q.1.buckets.flatten.map (·.id) :=
+  node_live_iff ho hp (reach_ninv ho hp hn ht hf h) op hk
+
+open CQMem CQRun in
+/-- **Payload conservation and memory release for the composed model.** For every queue
+    parameterisation, every in-range node layout, every page oracle and every add/cancel/fetch/peek
+    script there is a reachable queue-with-memory state whose queue component is the calendar-queue
+    model's run of the script, and dropping it (i) releases every live block exactly once, leaving
+    nothing allocated, and (ii) destroys payloads such that: payloads accepted by `add` =
+    payloads returned by `fetch` ⊎ payloads of events cancelled while pending ⊎ payloads destroyed
+    by the drop — each exactly once, unchanged. -/
+theorem cqmem_payload_conservation {orc P} (ho : OracleOk orc P) (hp : PageOk P)
+    {n t nsize nlog : Nat} (hn : 1 ≤ n) (ht : 1 ≤ t) (hf : Fits P nsize nlog) (ops : List CQRun.Op) :
+    ∃ st, Reach orc P n t nsize nlog st (srun ops).1 ∧ st.q = (mrun n t ops).1 ∧
+      (CQMem.drop orc st).out = .dropped ∧ (CQMem.drop orc st).st.a.live = [] ∧
+      (CQMem.drop orc st).st.a.st.allocated = 0 ∧
+      ((hist ops).2.added.map (·.val)).Perm
+        ((hist ops).2.fetched.map (·.val) ++ (hist ops).2.cancelled.map (·.val) ++
+          (CQMem.drop orc st).drops) := by
+  obtain ⟨st0, _, hc, hr0⟩ := cqmem_create_succeeds (orc := orc) ho hp hn ht hf
+  obtain ⟨st, hr, hq⟩ := reach_run ho hp hn ht hf ops hr0
+  have hq0 : st0.q = (CQ.init n t, []) := by
+    simp only [create] at hc
+    split at hc
+    · simp at hc
+    · split at hc
+      · simp at hc
+      · simp only [Prod.mk.injEq, Option.some.injEq] at hc
+        rw [← hc.1]
+  rw [hq0] at hq
+  obtain ⟨_, h2, h3, h4, _⟩ := cqmem_drop_releases_all ho hp hn ht hf hr
+  refine ⟨st, hr, hq, h2, h3, h4, ?_⟩
+  obtain ⟨hperm, _, _⟩ := payload_conservation n t hn ht ops
+  have := hperm.map (·.val)
+  simp only [List.map_append] at this
+  rw [drop_drops, hq]
+  simpa [mrun, List.map_append] using this
+
 /-! ### Non-vacuity -/
 
 /-- a concrete oracle: page k at `(k+1)·256` -/
@@ -263,5 +529,17 @@ theorem alloc_diverges_witness :
 /-- …and a whole page, or page − 16, is fine -/
 example : (run demoOrc 256 [.alloc 256 3, .alloc 240 3]).map (·.2) =
     some [.allocated 256, .allocated 512] := by decide
+
+/-- hypotheses of the `CQMem` theorems are satisfiable: 56-byte nodes (CQueue<u64>) on 256-byte pages -/
+theorem node_layout_in_range : Fits 256 56 3 := by unfold Fits; decide
+
+/-- …and 56-byte nodes on 64-byte pages are NOT in range (the allocator diverges) -/
+example : ¬ Fits 64 56 3 := by unfold Fits; decide
+
+/-- a reachable queue-with-memory state: new(2 buckets, width 10), add at 5 and at 0, fetch -/
+example : ∃ st ss, CQMem.Reach demoOrc 256 2 10 56 3 st ss :=
+  let ⟨st, _, _, hr⟩ := cqmem_create_succeeds (n := 2) (t := 10) oracle_assumption_satisfiable
+    page_assumption_satisfiable (by omega) (by omega) node_layout_in_range
+  ⟨_, _, .step .fetch (.step (.add 0 8) (.step (.add 5 7) hr))⟩
 
 end C15
